@@ -59,3 +59,22 @@ C((v1,[0],{k0:#I1})>0{}>(v2,[1],{k0:#I2}),(v2,[],{})>1{}>(v1,[],{})) ||| CREATE 
 C((v1,[2],{k0:#I7})>0{}>(v1,[],{})) ||| CREATE (v1:L2 {k0: 7})-[:T0]->(v1)
 C((v1,[0],{k0:#I3})>0{}>(v2,[1],{k0:#I4}),(v2,[],{})>1{}>(v2,[],{}))|R(v1.k0,v2.k0) ||| CREATE (v1:L0 {k0: 3})-[:T0]->(v2:L1 {k0: 4})-[:T1]->(v2) RETURN v1.k0 AS c0, v2.k0 AS c1
 C((v1,[0],{k0:#I5}),(v2,[1],{k0:#I6}),(v1,[],{})>0{}>(v2,[],{})) ||| CREATE (v1:L0 {k0: 5}), (v2:L1 {k0: 6}), (v1)-[:T0]->(v2)
+!reset
+# 9. known finding no-eager-barrier:match-driven-delete (reproduced from an empty store): a cycle, then MATCH-driven DETACH DELETE
+C((v1,[0],{k0:#I10})>0{}>(v2,[0],{k0:#I20}),(v2,[],{})>0{}>(v1,[],{})) ||| CREATE (v1:L0 {k0: 10})-[:T0]->(v2:L0 {k0: 20})-[:T0]->(v1)
+MR(v1,[0],v2,0,v3,[]);D(1,v1) ||| MATCH (v1:L0)-[v2:T0]->(v3) DETACH DELETE v1
+!reset
+#    the same class from /verif/replays/C04-spec-seed2-1: rows (1->2),(8->1), row 1 deletes node 1 and both relationships
+C((v1,[0,2],{k0:#I1})>0{k0:#I3}>(v2,[2],{k0:#I3}),(v3,[2],{k0:#I1})>0{}>(v1,[],{})) ||| CREATE (v1:L0:L2 {k0: 1})-[:T0 {k0: 3}]->(v2:L2 {k0: 3}), (v3:L2 {k0: 1})-[:T0]->(v1)
+MR(v1,[2],v2,0,v3,[2]);D(1,v1) ||| MATCH (v1:L2)-[v2:T0]->(v3:L2) DETACH DELETE v1
+!reset
+# 10. handle renaming with id reuse and many look-alike new nodes (from /verif/replays/C04-spec-seed2-0: a harness false alarm, fixed)
+C((_,[0],{k0:#I1})) ||| CREATE (:L0 {k0: 1})
+C((_,[0],{k0:#I2})) ||| CREATE (:L0 {k0: 2})
+C((_,[0],{k0:#I3})) ||| CREATE (:L0 {k0: 3})
+C((_,[0],{k0:#I4})) ||| CREATE (:L0 {k0: 4})
+C((v1,[2],{k0:#I1,k2:#I1})>1{k1:#I0}>(v2,[2],{k0:#I2})) ||| CREATE (v1:L2 {k0: 1, k2: 1})-[:T1 {k1: 0}]->(v2:L2 {k0: 2})
+C((v1,[2],{k0:#I0,k2:#I0})>1{k1:#I0}>(v2,[2],{k0:#I2})) ||| CREATE (v1:L2 {k0: 0, k2: 0})-[:T1 {k1: 0}]->(v2:L2 {k0: 2})
+C((v1,[2],{k0:#I1,k2:#I7})>1{k1:#I0}>(v2,[2],{k0:#I2})) ||| CREATE (v1:L2 {k0: 1, k2: 7})-[:T1 {k1: 0}]->(v2:L2 {k0: 2})
+MN(v1,[0],{});D(1,v1) ||| MATCH (v1:L0) DETACH DELETE v1
+MN(v1,[2],{});U([#I3,#I3,#I1],v0);C((v1,[],{})>1{k0:v1.k1}>(v2,[1],{k0:v1.k0})) ||| MATCH (v1:L2) UNWIND [3, 3, 1] AS v0 CREATE (v1)-[:T1 {k0: v1.k1}]->(v2:L1 {k0: v1.k0})
